@@ -48,7 +48,11 @@ func (p *packageParse) parse(data []byte) ([]*Message, error) {
 	if len(p.timeoutRecord) > 0 {
 		p.deleteTimeoutPackage() // 超时未完成的分包先删除 避免超时后又被最后一个包补全
 	}
-	for _, msg := range msgs {
+	// 分包完成的消息紧跟在最后一个分包之后 保证消息顺序不受一次读取到多少数据的影响
+	unpackMsgs := msgs
+	msgs = make([]*Message, 0, len(unpackMsgs)+1)
+	for _, msg := range unpackMsgs {
+		msgs = append(msgs, msg)
 		if completeMsg, ok := p.completePack(msg); ok {
 			msgs = append(msgs, completeMsg)
 		}
